@@ -77,6 +77,12 @@ Proof. exact remove_listed. Qed.
 Theorem C04_remove_by_cleaned_spelling : forall (cfg : config) (ss : spec) (s : sys) a b, clean a = clean b ->
   (spec_step ss (SRemove a) = spec_step ss (SRemove b)) /\ (sys_step cfg s (SRemove a) = sys_step cfg s (SRemove b)).
 Proof. intros cfg ss s a b E. split; cbn [spec_step sys_step]; rewrite E; reflexivity. Qed.
+Theorem C04_add_by_cleaned_spelling : forall (cfg : config) (ss : spec) (s : sys) a b ops nf walk, clean a = clean b ->
+  (spec_step ss (SAdd a ops nf walk) = spec_step ss (SAdd b ops nf walk)) /\
+  (sys_step cfg s (SAdd a ops nf walk) = sys_step cfg s (SAdd b ops nf walk)).
+Proof.
+  intros cfg ss s a b ops nf walk E. split; cbn [spec_step sys_step]; unfold recursive_path; rewrite E; reflexivity.
+Qed.
 Theorem C04_remove_spellings : forall (cfg : config) (s : sys) (a b : string), (a ++ "/" ++ b)%string <> ""%string ->
   (sys_step cfg s (SRemove (a ++ "//" ++ b)%string) = sys_step cfg s (SRemove (a ++ "/" ++ b)%string)) /\
   (sys_step cfg s (SRemove (a ++ "/./" ++ b)%string) = sys_step cfg s (SRemove (a ++ "/" ++ b)%string)) /\
@@ -121,3 +127,4 @@ Print Assumptions C04_remove_listed.
 Print Assumptions C04_clean_idempotent.
 Print Assumptions C04_remove_by_cleaned_spelling.
 Print Assumptions C04_remove_spellings.
+Print Assumptions C04_add_by_cleaned_spelling.
